@@ -21,6 +21,10 @@ pub enum Amf0DeserializationError {
     #[error("Hit end of the byte buffer but was expecting more data")]
     UnexpectedEof,
 
+    /// Arrays and objects were nested deeper than the deserializer is willing to follow
+    #[error("Values are nested too deeply")]
+    NestingTooDeep,
+
     /// An I/O Error occurred while reading the data buffer
     #[error("Failed to read byte buffer: {0}")]
     BufferReadError(#[from] io::Error),
